@@ -1190,7 +1190,7 @@ fn dwn_cells(tier: Tier) -> Vec<Cell> {
 	// a posted transaction whose block arrives while R runs, a second refresh that sees the block, and the node
 	// going away: R works on a chain view older than the wallet records when its node calls start to fail
 	for s in [S_CHANGE_POSTED, S_NOCHANGE_POSTED, S_RECV_POSTED].iter() {
-		let rs: Vec<u8> = if tier == Tier::Thorough { vec![R_SCAN, R_REFRESH, R_SCAN_DELETE] } else { vec![R_SCAN, R_REFRESH] };
+		let rs: Vec<u8> = vec![R_SCAN, R_REFRESH];
 		for r in rs {
 			v.push(Cell {
 				state: *s,
@@ -1222,7 +1222,7 @@ fn dwn_cells(tier: Tier) -> Vec<Cell> {
 				limit: 6000,
 			});
 			if tier == Tier::Thorough {
-				for o in [O_CANCEL, O_RECV, O_REFRESH].iter() {
+				for o in [O_RECV, O_REFRESH].iter() {
 					v.push(Cell {
 						state: s,
 						r: *r,
@@ -1810,7 +1810,7 @@ impl Prop for C20 {
 			"ex1" => "every (start state x R kind x one O operation) cell: all schedules enumerated when O holds the wallet lock for its whole duration (init_send, lock, receive, finalize: R's lock sections + 1 positions); O = cancel / refresh (themselves sequences of lock sections) enumerated up to a preemption bound (1 quick; 2 in the first thorough round, 1 in the later rounds that draw state variations). evaluations = schedules executed; non-trivial = schedule in which an O thread runs strictly between two lock sections of R (counted per schedule in extra.nontrivial_schedules; a case is non-trivial if it contains one)".into(),
 			"ex2" => "thorough only: every (start state x R kind x two lock-holding O operations) cell, all schedules".into(),
 			"evt" => "start states with a posted transaction whose block is built but not yet accepted; one thread is the node event 'block accepted'; R + event: all schedules; R + cancel/refresh + event: preemption bound 1 (quick, at most 160 executions) / 2 (thorough, first round; later rounds with drawn state variations use bound 1); state compared after one additional quiescent refresh in both the interleaved and the serial runs".into(),
-			"dwn" => "node event 'node unreachable' (every node call fails from that point on; a thread of its own, one atomic step). Event start states x R in {scan, refresh (thorough: + scan-delete)} x {second refresh, block accepted, node unreachable}: preemption bound 1 with free choice whenever a thread ends (R is interrupted once; block, refresh and node failure land there in every order), cut at 220 executions (quick) / 6000 (thorough); thorough also R + block + node unreachable with all schedules. Frozen start states x R in {refresh, scan} x node unreachable: all schedules (the node fails before every lock section of R); thorough adds cancel / receive / refresh next to it. Compared after one quiescent refresh against a reachable node, in both the interleaved and the serial runs; the return values of refresh / scan threads are not compared in this part (they depend on which node call fails first), the wallet state and all other results are".into(),
+			"dwn" => "node event 'node unreachable' (every node call fails from that point on; a thread of its own, one atomic step). Event start states x R in {scan, refresh} x {second refresh, block accepted, node unreachable}: preemption bound 1 with free choice whenever a thread ends (R is interrupted once; block, refresh and node failure land there in every order), cut at 220 executions (quick) / 6000 (thorough); thorough also R + block + node unreachable with all schedules. Frozen start states x R in {refresh, scan} x node unreachable: all schedules (the node fails before every lock section of R); thorough adds receive / refresh next to it (cancel_tx next to a failing node is not generated: whether its own refresh swallows or reports the failure decides its result, which this oracle would have to leave uncompared). Compared after one quiescent refresh against a reachable node, in both the interleaved and the serial runs; the return values of refresh / scan threads are not compared in this part (they depend on which node call fails first), the wallet state and all other results are".into(),
 			"pat" => "event start states (posted transaction, block built but not accepted), R in {refresh, scan}, O in {cancel, refresh}, node event 'block accepted'; 8 constructed schedules per case of the shape R x a, O x b, block, R x j, O to its end, R to its end with drawn (a, b, j): up to 3 preemptions, i.e. deeper than the enumerated bounds of evt; judged like evt (one quiescent refresh after both the interleaved and the serial runs)".into(),
 			_ => "R + 2..3 operations drawn from {init_send, lock, receive, finalize, cancel x2, refresh, cancel-other}, 6 random schedules (choice bytes) per case, R in {refresh, scan, scan(delete_unconfirmed)}; non-trivial as in ex1".into(),
 		}
